@@ -244,9 +244,16 @@ def check_props(ctx, props_rel, deps_targets):
     """Build the proofs the property file depends on, compile the property file itself (always, so
     that Print Assumptions output is fresh), count theorems and audit their assumptions.
     Returns (ok, failing_theorem_or_file)."""
+    props = COQ / props_rel
+    # every Miller.* file the property file imports is a build target too
+    deps_targets = list(deps_targets)
+    for m in re.finditer(r"From\s+Miller\s+Require\s+(?:Import|Export)\s+((?:[A-Za-z_][\w']*(?:\.[A-Za-z_][\w']*)*\s*)+)\.", strip_coq_comments(props.read_text())):
+        for name in m.group(1).split():
+            t = name.replace(".", "/") + ".vo"
+            if (COQ / (name.replace(".", "/") + ".v")).exists() and t not in deps_targets:
+                deps_targets.append(t)
     with ctx.timed("coq_make"):
         ok, log = coq_make(deps_targets)
-    props = COQ / props_rel
     src = strip_coq_comments(props.read_text())
     thms = re.findall(r"^\s*(?:Theorem|Corollary)\s+(\w+)", src, re.M)
     ctx.cov["theorems"] = thms
